@@ -183,7 +183,7 @@ PROPS = {
         "title": "Every entry point preserves the callee-saved machine state of the SysV ABI",
         "variant": "default",
         "asm": ["common/tramp.asm"],
-        "quick": {"cases": 160000},
+        "quick": {"cases": 500000},
         "thorough": {"cases": 6000000},
         "rule": "rapidcheck cases of seven kinds, every library call routed through the assembly trampoline (chosen sentinels in rbx/rbp/r12-r15, random caller-saved "
                 "registers, flags, zmm/k state; private stack with canary words above the call frame): hash submit/flush histories (valid and rejected submits) on "
